@@ -246,5 +246,5 @@ def make_obj(rng, cname, m=1):
 def reflection_guard():
     """names exported by spatialmath.base that are neither catalogued nor declared not-applicable"""
     import spatialmath.base as base
-    have = {e['target'][5:] for e in BASE}
+    have = {e['target'][5:] for e in BASE + CLASSES if e['target'].startswith('base.')}
     return sorted(n for n in base.__all__ if n not in have and n not in BASE_NOT_APPLICABLE)
